@@ -108,7 +108,9 @@ class Recorder:
         # oracle
         self.regcodes = {}        # id(code) -> label id   (codes of functions registered so far)
         self.regkeys = {}         # (blk, line) -> label id of the registered code owning that key
-        self.alias = {}           # (label, line) -> LINE events of *unregistered* code the callback cannot tell apart
+        self.alias = {}
+        self.alias_blocks = set()       # registered bytecodes that unregistered look-alikes ran on
+        # self.alias: (label, line) -> LINE events of *unregistered* code the callback cannot tell apart
         self.counts = {}
         self.inflight = {}
         self.slot = {}            # bytecode -> (label, line) of its pending line (one slot per bytecode, as in the callback)
@@ -225,6 +227,7 @@ class Recorder:
                     owner = self.regkeys.get(((base, pad), line))
                     if owner is not None:
                         self.alias[(owner, line)] = self.alias.get((owner, line), 0) + 1
+                        self.alias_blocks.add((base, pad))
         return self.tracer
 
     def enable_by_count(self):
@@ -414,7 +417,7 @@ def run_case(case, delta):
     pairs = {(c.co_code, -1 if l is None else l) for c in p.code_hash_map for (_s, _e, l) in c.co_lines()}
     collision = len({hash(cc) ^ l for cc, l in pairs}) != len(pairs)
     return {'ops': rec.ops, 'resA': resA, 'resB': resB, 'real_snaps': snaps, 'real_blks': blks,
-            'oracle': oracle, 'alias': alias, 'dropped': {'%d:%d' % k: v for k, v in sorted(rec.dropped.items())},
+            'oracle': oracle, 'alias': alias, 'alias_blocks': len(rec.alias_blocks), 'dropped': {'%d:%d' % k: v for k, v in sorted(rec.dropped.items())},
             'incl': {'%d:%d' % k: v for k, v in sorted(rec.incl.items())}, 'reentrant': sorted(rec.reentrant),
             'enabled_span': rec.enabled_span, 'clock_end_B': CLIB.verif_clock_get(), 'midflight_disable': rec.midflight_disable, 'nevents': rec.nevents,
             'collision': collision, 'labels': {str(v): list(k) for k, v in labels.d.items()}}
